@@ -292,7 +292,9 @@ fn via_new_at(m: &VerModel, s: &Sections, enc: Enc, k: usize) -> Result<Option<A
 fn file_image(m: &VerModel, s: &Sections, enc: Enc, order_variant: u64, shared: bool) -> Vec<u8> {
     // section numbering depends on the order variant; links are computed from names afterwards
     let mut secs: Vec<Sec> = Vec::new();
-    let dynsym = vec![0u8; layout(Kind::Sym, enc.class).size * m.versym.len()];
+    // in the third section order .dynsym declares only half as many symbols as .gnu.version has entries:
+    // the version table's length is its own section's business
+    let dynsym = vec![0u8; layout(Kind::Sym, enc.class).size * if order_variant == 2 { m.versym.len() / 2 } else { m.versym.len() }];
     let mk_versym = || Sec::new(b".gnu.version", SHT_GNU_VERSYM, s.versym.clone()).entsize(2);
     let mk_need = || Sec::new(b".gnu.version_r", SHT_GNU_VERNEED, s.verneed.clone()).info(m.needs.len() as u32);
     let mk_def = || Sec::new(b".gnu.version_d", SHT_GNU_VERDEF, s.verdef.clone()).info(m.defs.len() as u32);
